@@ -98,7 +98,7 @@ CHECKS = {
         "junk / zero suffixes, random strings <= 16 bytes, for up to 500 types (quick, sampled) / all types (thorough). "
         "Results containing NaN are skipped (payload does not survive a Python float). The byte string is handed over as bytes / "
         "bytearray / memoryview (also a slice of a larger buffer) in turn. Thorough: 8 bits at two nesting steps and 16 bits at one on the "
-        "specification, 2 500 types on the code.",
+        "specification, 1 200 types on the code.",
    technique="TLA+ total decoder checked by TLC; recorded deserialize() calls validated against the spec by TLC",
    design="4 C07"),
  "C14": dict(
